@@ -25,7 +25,7 @@ def harness(name, props, kind, what, tier='quick', bound='none', args=(), timeou
     HARNESSES.append(dict(name=name, props=props, kind=kind, what=what, tier=tier, bound=bound, args=list(args), timeout=timeout, heavy=heavy))
 
 
-_BUILT = ['C01', 'C02', 'C03', 'C04', 'C07', 'C15']
+_BUILT = ['C01', 'C02', 'C03', 'C04', 'C05', 'C06', 'C07', 'C09', 'C14', 'C15']
 for _p in ['C01', 'C02', 'C03', 'C04', 'C05', 'C06', 'C07', 'C08', 'C09', 'C10', 'C11', 'C12', 'C13', 'C14', 'C15', 'C16', 'C17']:
     if _p in _BUILT:
         prop(_p, level='proof', level_text='Verus discharges the contracts of the real functions serving this property for all inputs (under construction: unit list grows)',
